@@ -137,4 +137,10 @@ theorem recovery_named (row : Gen.CurveRow) (hrow : row ∈ [Gen.curve_NIST192p,
 
 end Named
 
+/-- the ECDSA model's `inverse_mod` (hand-written extended Euclid, proved to be the `ZMod` inverse) returns exactly
+what nt's model of `numbertheory.inverse_mod` — regenerated from the source text (C15) — returns, for every `a` and
+every positive modulus -/
+theorem inverse_mod_model_agrees (a m : ℤ) (hm : 1 ≤ m) : inverseMod a m = NT.inverseMod a m :=
+  inverseMod_eq_nt a m hm
+
 end C14
